@@ -14,8 +14,9 @@ DRIVER = r"""
 (import (scheme base) (scheme write) (srfi 128) %(imports)s)
 (define cmp (make-default-comparator))
 (define (val k) (* 10 (+ k 1)))
+(define (kmap k) %(kmap)s)          ; spreads the keys (identity for the ordered maps; scattered for the integer sets)
 (define (order-keys n kind)        ; the odd keys 1,3,..,2n-1 in the insertion order `kind`
-  (let ((ks (let loop ((i (- n 1)) (acc '())) (if (< i 0) acc (loop (- i 1) (cons (+ 1 (* 2 i)) acc))))))
+  (let ((ks (let loop ((i (- n 1)) (acc '())) (if (< i 0) acc (loop (- i 1) (cons (kmap (+ 1 (* 2 i))) acc))))))
     (case kind
       ((asc) ks)
       ((desc) (reverse ks))
@@ -25,7 +26,7 @@ DRIVER = r"""
       ((bitrev) (let* ((bits (let loop ((b 0)) (if (>= (expt 2 b) n) b (loop (+ b 1)))))
                        (rev (lambda (i) (let loop ((i i) (b bits) (r 0)) (if (= b 0) r (loop (quotient i 2) (- b 1) (+ (* 2 r) (remainder i 2))))))))
                   (let loop ((i 0) (acc '())) (if (= i (expt 2 bits)) (reverse acc)
-                                                  (loop (+ i 1) (if (< (rev i) n) (cons (+ 1 (* 2 (rev i))) acc) acc))))))
+                                                  (loop (+ i 1) (if (< (rev i) n) (cons (kmap (+ 1 (* 2 (rev i)))) acc) acc))))))
       (else ks))))
 (define (model-insert al k) (cond ((null? al) (list (cons k (val k)))) ((< k (caar al)) (cons (cons k (val k)) al))
                                   ((= k (caar al)) al) (else (cons (car al) (model-insert (cdr al) k)))))
@@ -38,10 +39,10 @@ DRIVER = r"""
   (set! cases (+ cases 1))
   (let ((got (guard (e (#t (list 'exception (if (error-object? e) (error-object-message e) e))))
                (list (%(alist)s m) (%(size)s m)
-                     (let loop ((k 0) (acc '())) (if (> k (+ 1 (* 2 n))) (reverse acc) (loop (+ k 1) (cons (%(ref)s m k 'no) acc))))
+                     (let loop ((k 0) (acc '())) (if (> k (+ 1 (* 2 n))) (reverse acc) (loop (+ k 1) (cons (%(ref)s m (kmap k) 'no) acc))))
                      %(extra)s)))
         (want (list al (length al)
-                    (let loop ((k 0) (acc '())) (if (> k (+ 1 (* 2 n))) (reverse acc) (loop (+ k 1) (cons (let ((p (assv k al))) (if p (cdr p) 'no)) acc))))
+                    (let loop ((k 0) (acc '())) (if (> k (+ 1 (* 2 n))) (reverse acc) (loop (+ k 1) (cons (let ((p (assv (kmap k) al))) (if p (cdr p) 'no)) acc))))
                     %(extra_want)s)))
     (if (not (equal? got want)) (report 'contents n kind hist got want))))
 (define (run n kind pairs?)
@@ -63,13 +64,13 @@ DRIVER = r"""
                                                    (report 'delete-raised n kind (list 'delete k 'delete j) 'exception 'mapping)))))
                              ks))
                ;; insert an absent (even) key next to the hole
-               (let ((m4 (guard (e (#t #f)) (%(set)s m2 (+ k 1) (val (+ k 1))))))
-                 (if m4 (check m4 (model-insert al2 (+ k 1)) n kind (list 'delete k 'insert (+ k 1)))))))))
+               (let* ((k2 (kmap (* 2 (quotient (length al2) 2)))) (m4 (guard (e (#t #f)) (%(set)s m2 k2 (val k2)))))
+                 (if m4 (check m4 (model-insert al2 k2) n kind (list 'delete k 'insert k2))))))))
      ks)
     (let loop ((k 0))              ; every absent key inserted
       (if (<= k (* 2 n))
-          (begin (let ((m5 (guard (e (#t #f)) (%(set)s m k (val k)))))
-                   (if m5 (check m5 (model-insert al k) n kind (list 'insert k)) (report 'insert-raised n kind (list 'insert k) 'exception 'mapping)))
+          (begin (let* ((kk (kmap k)) (m5 (guard (e (#t #f)) (%(set)s m kk (val kk)))))
+                   (if m5 (check m5 (model-insert al kk) n kind (list 'insert kk)) (report 'insert-raised n kind (list 'insert kk) 'exception 'mapping)))
                  (loop (+ k 2)))))
     %(pop)s))
 (define (go lo hi pairs-max)
@@ -79,7 +80,7 @@ DRIVER = r"""
 """
 
 LIBS = {
-    "mapping": dict(imports="(srfi 146)", alist="mapping->alist", size="mapping-size", ref="mapping-ref/default", empty="mapping cmp",
+    "mapping": dict(kmap="k", imports="(srfi 146)", alist="mapping->alist", size="mapping-size", ref="mapping-ref/default", empty="mapping cmp",
                     set="mapping-set", delete="mapping-delete",
                     extra="(if (mapping-empty? m) 'empty (list (mapping-min-key m) (mapping-max-key m))) (mapping-fold/reverse (lambda (k v acc) (cons k acc)) '() m)",
                     extra_want="(if (null? al) 'empty (list (caar al) (car (car (reverse al))))) (map car al)",
@@ -91,9 +92,15 @@ LIBS = {
                        (check (car r) (cdr al) n kind (list 'pops (+ i 1)))
                        (loop (car r) (cdr al) (+ i 1)))
                 (report 'pop-raised n kind (list 'pops i) r 'three-values)))))"""),
-    "hashmap": dict(imports="(srfi 146 hash)", alist="(lambda (m) (let sort ((l (hashmap->alist m)) (acc '())) (if (null? l) acc (sort (cdr l) (let ins ((a acc)) (cond ((null? a) (list (car l))) ((< (caar l) (caar a)) (cons (car l) a)) (else (cons (car a) (ins (cdr a))))))))))",
+    "hashmap": dict(kmap="k", imports="(srfi 146 hash)", alist="(lambda (m) (let sort ((l (hashmap->alist m)) (acc '())) (if (null? l) acc (sort (cdr l) (let ins ((a acc)) (cond ((null? a) (list (car l))) ((< (caar l) (caar a)) (cons (car l) a)) (else (cons (car a) (ins (cdr a))))))))))",
                     size="hashmap-size", ref="hashmap-ref/default", empty="hashmap cmp", set="hashmap-set", delete="hashmap-delete",
                     extra="(hashmap-empty? m)", extra_want="(null? al)", pop="#t"),
+    # integer sets: keys scattered over 0..1020 so that the bit-trie has many nodes; `set` / `delete` are the functional adjoin / delete
+    "iset": dict(kmap="(modulo (* k 97) 1021)", imports="(chibi iset)",
+                 alist="(lambda (s) (map (lambda (x) (cons x (val x))) (iset->list s)))", size="iset-size",
+                 ref="(lambda (s k d) (if (iset-contains? s k) (val k) d))", empty="iset",
+                 set="(lambda (s k v) (iset-adjoin s k))", delete="iset-delete",
+                 extra="(iset-empty? m)", extra_want="(null? al)", pop="#t"),
 }
 
 
